@@ -574,6 +574,38 @@ def C06.bad (c : Ctx) (j : Journal) : List String :=
         (if adds != 0 then ["taint-above-scale-up-threshold"] else [])
       else []
 
+/-- "Exactly min(rate, untainted − min_nodes)" when writes fail or the cache is stale: the taint loop goes on to the
+    next-oldest node after a node it could not taint, so a scan that ends with fewer than the required number of nodes
+    tainted (counting nodes found tainted already when fetched) must have tried *every* untainted node it saw. -/
+def C06.tooFewBad (c : Ctx) (paired : List (Entry × Resp)) : List String :=
+  let unt := nodesOf c.dry c.st .untainted c.view.nodes
+  let n : Int := c.view.nodes.length
+  let j := paired.map (·.1)
+  if c.dry || lockHeld c.st.lock c.cfg.coolNs c.nowReal || n < c.st.minEff || n > c.st.maxEff ||
+     (unt.length : Int) < c.st.minEff || c.cfg.scaleOnStarve || c.cfg.maxAgeNs > 0 then []
+  else
+    match exactUtil c with
+    | none => []
+    | some u =>
+      let rate? : Option Int :=
+        if clearlyBelow u c.cfg.lower then some c.cfg.fast
+        else if clearlyAbove u c.cfg.lower && clearlyBelow u c.cfg.upper then some c.cfg.slow
+        else none
+      match rate? with
+      | none => []
+      | some rate =>
+        let want : Int := max 0 (min rate ((unt.length : Int) - c.st.minEff))
+        let adds : Int := (j.filter (isTaintAdd c.view)).length
+        let already : Int := (paired.filter (fun (e, r) => match e.call, r with
+          | .getNode _, .node nd => e.ok && hasTaint escKey nd && unt.any (fun x => x.name == nd.name)
+          | _, _ => false)).length
+        let attempted := getNames j
+        let untried := unt.filter (fun x => !attempted.contains x.name)
+        if adds + already < want && !untried.isEmpty then
+          ["tainted " ++ toString adds ++ " (+" ++ toString already ++ " found tainted already) of the " ++ toString want ++
+           " nodes the band requires, and never tried " ++ toString (untried.map (·.name))]
+        else []
+
 /-- The decision itself (the delta the scan settles on), in every mode including dry mode, against the
     exact utilisation over the untainted uncordoned nodes: −fast / −slow / 0 / positive by band. Judged when
     the group is unlocked, within its node-count bounds, at or above its minimum and no trigger is configured. -/
